@@ -112,8 +112,12 @@ impl Prop for C19 {
         let t0 = if rng.chance(1, 3) { day0 + 86_400 - rng.range(1, 6) } else { day0 + rng.range(0, 80_000) };
         let epoch_ns = t0 * SEC + rng.below(1000) * MS;
         let nres = rng.range(1, 3) as usize;
-        let res: Vec<String> = (0..nres).map(|i| format!("res{}", i)).collect();
-        let nsec = rng.range(1, 8);
+        // one scenario in three: resource names with multi-byte characters (a crash can tear a line inside one)
+        let wide = rng.chance(1, 3);
+        let res: Vec<String> = (0..nres).map(|i| if wide { format!("\u{8d44}\u{6e90}-\u{e9}{}", i) } else { format!("res{}", i) }).collect();
+        // one scenario in eight: a long history with a tiny size limit, so that one date sees more than nine files
+        let many = rng.chance(1, 8);
+        let nsec = if many { rng.range(10, 14) } else { rng.range(1, 8) };
         let ops: Vec<Sec> = (0..nsec)
             .map(|_| Sec {
                 gap: *rng.pick(&[1u64, 1, 1, 2, 5, 60]),
@@ -125,7 +129,7 @@ impl Prop for C19 {
                 },
             })
             .collect();
-        let max_size = *rng.pick(&[150u64, 200, 400, 1000, 2000, 1 << 20]);
+        let max_size = if many { *rng.pick(&[1u64, 100]) } else { *rng.pick(&[150u64, 200, 400, 1000, 2000, 1 << 20]) };
         serde_json::to_value(Scn { epoch_ns, max_size, max_files: rng.range(1, 4) as usize, res, crash: !rng.chance(1, 4), ops }).unwrap()
     }
 
